@@ -30,10 +30,12 @@ namespace MjProof.Cache
 /-- 2^64: `std::size_t` of the build. -/
 def W : Nat := 18446744073709551616
 
-/-- `size_t` addition. -/
-def wadd (a b : Nat) : Nat := (a + b) % W
-/-- `size_t` subtraction. -/
-def wsub (a b : Nat) : Nat := (a + W - b % W) % W
+/-- `size_t` addition of two `size_t` values (`a, b < 2^64`; the driver rejects larger literals and every
+    stored byte count is an operand or a result of these two functions).  Written with `if` instead of
+    `%` so that no definitional unfolding ever has to evaluate a modulus by 2^64. -/
+def wadd (a b : Nat) : Nat := if a + b < W then a + b else a + b - W
+/-- `size_t` subtraction of two `size_t` values. -/
+def wsub (a b : Nat) : Nat := if b ≤ a then a - b else a + W - b
 
 structure Asset where
   id : Nat
